@@ -94,7 +94,7 @@ MWEIGHTS = {
     'blacklist': 2, 'group': 3, 'del_group': 1, 'clock': 6, 'cell_event': 1,
     'integrity': 2, 'restart': 0, 'noop': 1, 'blackout_server': 1, 'partition_schedule': 1, 'bucket_new': 1,
     'stale_finished': 1, 'swap_apps': 1, 'retention_update': 1, 'bucket_remove': 0, 'server_delete_event_lost': 1,
-    'servers_reload_all': 1, 'bucket_reparent': 0, 'stale_presence': 2,       # bucket_reparent: C11 only (its profile)
+    'servers_reload_all': 1, 'bucket_reparent': 0, 'stale_presence': 2, 'maintenance': 2,       # bucket_reparent: C11 only (its profile)
 }
 
 
@@ -753,6 +753,20 @@ class MasterDriver:
                 for v in victims:
                     del self.Z['apps'][v]
                 self.ops.append(('delete_apps', victims))
+        elif kind == 'maintenance' and servers:
+            # an operator takes a server out (state down), changes it (partition / traits / capacity) and puts it back,
+            # preferably one that runs nothing
+            idle = [s_ for s_ in servers if not self.srv.children(self.z.path.placement(s_))]
+            s_ = rng.choice(idle or servers)
+            self.op_server_state(s_, 'down', None)
+            what = rng.choice(['attrs', 'traits', 'cap'])
+            if what == 'attrs':
+                self.op_server_attrs(s_)
+            elif what == 'traits' and self.traits_on:
+                self.op_server_traits(s_)
+            else:
+                self.op_server_cap(s_)
+            self.op_server_state(s_, 'up', None)
         elif kind == 'stale_presence' and self.master is not None and not getattr(self, 'stale_presence', None):
             self.op_stale_presence()
         elif kind == 'bucket_reparent' and self.depth == 2:
